@@ -1,0 +1,6 @@
+//go:build !verif
+
+package verifhook
+
+// Point is a no-op without the verif build tag.
+func Point(site Site, obj any) {}
